@@ -10,7 +10,10 @@ TLC     : exhaustive to depth 6 with up to 2 unread tokens per read: NoBypass, P
 Binding : B1. Simulated attacker behaviours (depth 7, mid-token cuts) are concretised to bytes by
           the harness (its own token->bytes table) and fed to the real engine built through the
           real option path, with CURVE and with Noise_XX; plus byte-level mutations of each
-          behaviour.  The property is judged on the real AppActions: no HandshakeComplete and no
+          behaviour; and, exhaustively, the role-confusion family (MC_Script_roleflip: a well-formed
+          greeting naming the configured mechanism with either as-server bit, then every sequence of
+          three frames out of HELLO / WELCOME / INITIATE without a secret, READY, data - written
+          blindly, read one token at a time or at once).  The property is judged on the real AppActions: no HandshakeComplete and no
           DeliverMessage from a peer that proved nothing.
 """
 import vlib
@@ -28,6 +31,12 @@ def run(ctx):
     ctx.sample({"from": "MC_Script_simsec", "behaviour": beh[0]})
     ctx.sample({"from": "MC_Script_simsec", "behaviour": beh[len(beh) // 2]})
     el.script_replay(ctx, "C06", beh, "sec", mutate=6 if thorough else 2)
+    # role confusion: the family random simulation reaches about once in 10^5 runs, exported exhaustively
+    rf = ctx.model_check("MC_Script", "MC_Script_roleflip.cfg", workers=8, timeout=1500, coverage=False)
+    rbeh = el.need(rf, "Script role-confusion family")
+    ctx.sample({"from": "MC_Script_roleflip", "behaviour": rbeh[len(rbeh) // 3]})
+    el.script_replay(ctx, "C06", rbeh, "roleflip")
+    ctx.extra["roleflip_behaviours"] = len(rbeh)
     el.selftest(ctx, "script", beh)
     ctx.assumptions += [
         "the attacker cannot produce a mechanism round that needs a secret (wrong password / random boxes are what it sends)",
